@@ -230,6 +230,7 @@ fn gen_op(
         /* 15 BuilderTwin */ sw.w_twin,
         /* 16 SvgTwin     */ if any_qr && sw.w_svg > 0 { sw.w_twin } else { 0 },
         /* 17 ImgTwin     */ if any_qr && sw.w_img > 0 { sw.w_twin / 3 } else { 0 },
+        /* 18 BatchRender */ if sw.w_svg + sw.w_img > 0 { 3 + sw.w_twin / 3 } else { 0 },
     ];
     let pick_qr = |rng: &mut Rng| -> QrRef {
         if n_shared_q > 0 && (have_q.is_empty() || rng.chance(2, 5)) {
@@ -418,11 +419,72 @@ fn gen_op(
             let qr = pick_qr(rng);
             gen_render_twin(rng, sw, tg, false, qr, ops);
         }
-        _ => {
+        17 => {
             let qr = pick_qr(rng);
             gen_render_twin(rng, sw, tg, true, qr, ops);
         }
+        _ => gen_batch_render(rng, sw, tg, inputs.len(), ops),
     }
+}
+
+/// Batch export: one configured renderer renders several *similar* QR codes back to back (same
+/// version; other input, or the same input with another mask or level), then a freshly made
+/// renderer with the same options renders the last and the first of them again. A renderer that
+/// remembers anything about the previous code shows up as a difference between the two.
+fn gen_batch_render(rng: &mut Rng, sw: &Swarm, tg: &mut TaskGen, n_inputs: usize, ops: &mut Vec<OpSpec>) {
+    let is_img = sw.w_img > 0 && (sw.w_svg == 0 || rng.chance(1, 2));
+    let version = *rng.pick(&[1u8, 1, 1, 2, 2, 3, 5]);
+    let k = rng.range(2, 4) as usize;
+    let base_input = rng.usize_below(n_inputs.max(1)) as u8;
+    let base_mask = rng.below(8) as u8;
+    let style = rng.below(3);
+    for i in 0..k {
+        let (input, ecl, mask) = match style {
+            // other inputs, everything else equal
+            0 => (rng.usize_below(n_inputs.max(1)) as u8, Some(0u8), Some(base_mask)),
+            // the same input under different masks
+            1 => (base_input, Some(0u8), Some((base_mask + i as u8) % 8)),
+            // the same input at different levels (and whatever mask wins)
+            _ => (base_input, Some((i % 4) as u8), None),
+        };
+        tg.qrs[i] = true;
+        ops.push(plain(Op::BuildFresh { input, mode: None, ecl, version: Some(version), mask, out: i as u8 }));
+    }
+    let n = rng.range(0, 3) as usize;
+    let setters: Vec<RSetter> = (0..n).map(|_| gen::gen_rsetter(rng, is_img, is_img, false)).collect();
+    let make = |slot: u8, tg: &mut TaskGen, ops: &mut Vec<OpSpec>| {
+        if is_img {
+            tg.imgs[slot as usize] = true;
+            ops.push(plain(Op::NewImg { slot }));
+            for s in &setters {
+                ops.push(plain(Op::ImgSet { slot, s: s.clone() }));
+            }
+        } else {
+            tg.svgs[slot as usize] = true;
+            tg.svg_has_panicky[slot as usize] = false;
+            ops.push(plain(Op::NewSvg { slot }));
+            for s in &setters {
+                ops.push(plain(Op::SvgSet { slot, s: s.clone() }));
+            }
+        }
+    };
+    let pixmap = rng.chance(1, 3);
+    let render = |slot: u8, q: usize| -> Op {
+        if is_img {
+            Op::ImgRender { slot, qr: QrRef::Local(q as u8), pixmap }
+        } else {
+            Op::SvgRender { slot, qr: QrRef::Local(q as u8) }
+        }
+    };
+    make(0, tg, ops);
+    for i in 0..k {
+        ops.push(faulted(rng, sw, render(0, i), None));
+    }
+    make(1, tg, ops);
+    ops.push(plain(render(1, k - 1)));
+    ops.push(plain(render(1, 0)));
+    // and the long-lived renderer once more on the first code
+    ops.push(plain(render(0, 0)));
 }
 
 // ---------------------------------------------------------------------------
